@@ -355,7 +355,7 @@ impl GicMsi {
             r#type: MadtStructureType::GicMsiFrame as u8,
             length: 24,
             _reserved: 0.into(),
-            flags: 1.into(), /* Ignore SPI count and base until set */
+            flags: 0.into(), /* SPI count and base are ignored until set */
             ..Default::default()
         }
     }
@@ -365,7 +365,7 @@ impl GicMsi {
     pub fn spi_count_and_base(mut self, spi_count: u16, spi_base: u16) -> Self {
         self.spi_count = spi_count.into();
         self.spi_base = spi_base.into();
-        self.flags = 0.into();
+        self.flags = 1.into(); /* SPI Count/Base Select: use the values above */
         self
     }
 }
